@@ -25,6 +25,7 @@ _STR_METHODS = (
     "isascii", "isnumeric", "isdecimal", "isidentifier", "isprintable", "istitle", "removeprefix", "removesuffix", "swapcase",
     "center", "ljust", "rjust", "expandtabs", "translate", "format_map",
 )
+import collections as _co
 _PURE_BUILTIN_NAMES = (
     "len", "str", "int", "float", "bool", "all", "any", "tuple", "list", "sorted", "min", "max", "callable", "dict", "set", "frozenset",
     "sum", "abs", "enumerate", "zip", "ord", "chr", "hex", "bin", "oct", "repr", "round", "divmod", "pow", "bytes", "bytearray", "hash",
@@ -37,7 +38,11 @@ _PURE_METHODS = {
     tuple: ("index", "count"),
     dict: ("get", "items", "keys", "values", "copy", "update", "setdefault", "pop"),
     set: ("add", "update", "copy", "discard", "union", "intersection"),
-    frozenset: ("union", "intersection", "copy"),
+    frozenset: ("union", "intersection", "copy", "issubset", "issuperset", "isdisjoint", "difference"),
+    _co.deque: ("append", "appendleft", "pop", "popleft", "extend", "extendleft", "clear", "copy", "count", "index", "reverse", "rotate"),
+    _co.ChainMap: ("get", "keys", "values", "items", "new_child"),
+    _co.OrderedDict: ("get", "keys", "values", "items", "setdefault", "pop", "update", "move_to_end", "popitem", "copy"),
+    _co.Counter: ("get", "keys", "values", "items", "most_common", "update", "elements"),
 }
 
 
@@ -49,8 +54,18 @@ _PURE_STDLIB = {
     "unicodedata.normalize": _ud.normalize, "unicodedata.category": _ud.category, "unicodedata.combining": _ud.combining,
     "itertools.product": _it.product, "itertools.chain": _it.chain, "itertools.permutations": _it.permutations,
     "itertools.combinations": _it.combinations, "itertools.repeat": _it.repeat, "itertools.islice": _it.islice,
-    "operator.itemgetter": _op.itemgetter, "operator.attrgetter": _op.attrgetter,
+    "operator.itemgetter": _op.itemgetter, "operator.attrgetter": _op.attrgetter, "operator.methodcaller": _op.methodcaller,
+    "operator.ne": _op.ne, "operator.eq": _op.eq, "operator.not_": _op.not_, "operator.contains": _op.contains, "operator.add": _op.add, "operator.getitem": _op.getitem,
+    "operator.lt": _op.lt, "operator.le": _op.le, "operator.gt": _op.gt, "operator.ge": _op.ge, "operator.is_": _op.is_, "operator.is_not": _op.is_not, "operator.truth": _op.truth,
+    "itertools.cycle": lambda it: _it.islice(_it.cycle(list(it)), 100000) if list(it) else iter(()), "itertools.zip_longest": _it.zip_longest, "itertools.accumulate": _it.accumulate,
+    "itertools.count": lambda *a: _it.islice(_it.count(*a), 100000), "itertools.tee": _it.tee, "itertools.compress": _it.compress, "itertools.starmap": None, "itertools.takewhile": None, "itertools.dropwhile": None,
+    "collections.deque": _co.deque, "collections.OrderedDict": _co.OrderedDict, "collections.ChainMap": _co.ChainMap, "collections.Counter": _co.Counter,
+    "string.maketrans": str.maketrans,
+    "functools.wraps": lambda wrapped, *a, **k: Native(_identity_decorator), "functools.lru_cache": lambda *a, **k: (a[0] if a and isinstance(a[0], _CALLABLE_VALUES) else Native(_identity_decorator)),
+    "functools.cache": lambda f: f, "functools.update_wrapper": lambda wrapper, wrapped, *a, **k: wrapper,
 }
+_PURE_STDLIB = dict((k, v) for k, v in _PURE_STDLIB.items() if v is not None)
+_BUILTIN_TYPES = {"bytes": bytes, "str": str, "int": int, "dict": dict, "list": list, "tuple": tuple, "set": set, "frozenset": frozenset, "float": float, "bool": bool, "bytearray": bytearray}
 
 
 class Native(object):
@@ -96,6 +111,7 @@ class RegexMethod(object):
 
 
 _CALLABLE_VALUES = (FuncRef, Closure, Bound, Obj, Partial, Native, RegexMethod)
+_CONTAINERS = (str, bytes, bytearray, list, tuple, dict, set, frozenset, _co.deque, _co.ChainMap)
 
 
 class Raised(Unknown):
@@ -140,6 +156,15 @@ def _registered_error_handlers(repo):
                         ref = repo.resolve(m, st.value.args[1].id)
                         if ref is not None and ref.node is not None:
                             cache[st.value.args[0].value] = ref
+            # ... or through a decorator of the package whose body registers its argument: the decoration is interpreted
+            for st in m.tree.body:
+                if isinstance(st, ast.FunctionDef) and st.decorator_list and any("register_error" in unparse(x) for d in st.decorator_list if isinstance(d, ast.Call) and isinstance(d.func, ast.Name)
+                                                                                for r in [repo.resolve(m, d.func.id)] if r is not None and r.node is not None for x in [r.node]):
+                    try:
+                        decorated_value(repo, FuncRef(m, st, "%s.%s" % (m.name, st.name)))
+                    except Unknown:
+                        pass
+        cache.update(repo.__dict__.get("_error_handlers_dynamic", {}))
         repo.__dict__["_error_handlers"] = cache
     return cache
 
@@ -259,11 +284,42 @@ class _Return(Exception):
         self.value = value
 
 
+_PASS_THROUGH_DECORATORS = ("staticmethod", "classmethod", "property")
+
+
+def _identity_decorator(f):
+    return f
+
+
+def decorated_value(repo, ref, depth=0):
+    """what a decorated module-level function is bound to: decorator(function), the decorators interpreted bottom-up
+    (functools.wraps(f) and functools.lru_cache(...) leave the function as it is); None when there is nothing to apply"""
+    fn = ref.node
+    if not isinstance(fn, ast.FunctionDef) or not fn.decorator_list or ref.qualname == "<raw>" or ref.module is None:
+        return None
+    if all(unparse(d).split(".")[-1].split("(")[0] in _PASS_THROUGH_DECORATORS + ("setter", "getter") for d in fn.decorator_list):
+        return None
+    cache = repo.__dict__.setdefault("_decorated", {})
+    key = id(fn)
+    if key not in cache:
+        value = FuncRef(ref.module, fn, "<raw>")
+        ev = _Interp(repo, ref.module, {}, depth + 1)
+        for d in reversed(fn.decorator_list):
+            dv = ev.expr(d)
+            value = ev.call_value(dv, [value], {})
+        cache[key] = value
+    return cache[key]
+
+
 def run_function(repo, ref, args=(), kwargs=None, depth=0, outer=None):
     """Interpret FuncRef `ref` (def or lambda) on concrete values.  `outer`: the variables of the
     enclosing function when `ref` is a closure."""
     if depth > 40:
         raise Unknown("call depth")
+    if isinstance(ref, FuncRef) and isinstance(ref.node, ast.FunctionDef) and ref.node.decorator_list and outer is None:
+        dv = decorated_value(repo, ref, depth)
+        if dv is not None and not (isinstance(dv, FuncRef) and dv.node is ref.node):
+            return _Interp(repo, ref.module, {}, depth).call_value(dv, list(args), dict(kwargs or {}))
     if not isinstance(ref, FuncRef) or not isinstance(ref.node, (ast.FunctionDef, ast.Lambda)):
         # any other callable value of the interpreter (closure, partial, instance with __call__, class)
         return _Interp(repo, repo.mod("utils"), {}, depth).call_value(ref, list(args), dict(kwargs or {}))
@@ -590,7 +646,7 @@ class _Interp(object):
                 tup = tuple(v.attrs[f_] for f_ in v.attrs["__fields__"])
                 try:
                     if isinstance(n.slice, ast.Slice):
-                        return tup[(self.expr(n.slice.lower) if n.slice.lower else None):(self.expr(n.slice.upper) if n.slice.upper else None)]
+                        return tup[(self.expr(n.slice.lower) if n.slice.lower else None):(self.expr(n.slice.upper) if n.slice.upper else None):(self.expr(n.slice.step) if n.slice.step else None)]
                     return tup[self.expr(n.slice)]
                 except (IndexError, TypeError) as e:
                     raise Raised(type(e).__name__)
@@ -600,7 +656,8 @@ class _Interp(object):
                 if isinstance(n.slice, ast.Slice):
                     lo = self.expr(n.slice.lower) if n.slice.lower else None
                     hi = self.expr(n.slice.upper) if n.slice.upper else None
-                    return v[lo:hi]
+                    st = self.expr(n.slice.step) if n.slice.step else None
+                    return v[lo:hi:st]
                 return v[self.expr(n.slice)]
             except (IndexError, KeyError, TypeError) as e:
                 raise Raised(type(e).__name__, "subscript")
@@ -650,8 +707,11 @@ class _Interp(object):
                     return getattr(base, n.attr)
                 except ValueError:
                     raise Raised("ValueError")
-            if isinstance(base, (str, bytes, bytearray, list, tuple, dict, set, frozenset)) and n.attr in _PURE_METHODS.get(type(base), ()):
+            if isinstance(base, _CONTAINERS) and n.attr in _PURE_METHODS.get(type(base), ()):
                 # a bound built-in method taken as a value: append = res.extend
+                return Native(getattr(base, n.attr))
+            if isinstance(base, type) and base in _BUILTIN_TYPES.values() and hasattr(base, n.attr):
+                # an unbound method / class method of a builtin type taken as a value: str.lower, bytes.fromhex
                 return Native(getattr(base, n.attr))
             if isinstance(base, Regex) and n.attr in ("sub", "subn", "match", "search", "fullmatch", "split", "findall", "finditer"):
                 return RegexMethod(base, n.attr)
@@ -669,6 +729,8 @@ class _Interp(object):
                 return ref
             if ref is not None and ref.module is None and ref.node is None and _external(ref.qualname) is not None:
                 return ref
+        if isinstance(n, ast.Name) and n.id not in self.env and n.id in _BUILTIN_TYPES and n.id not in self.module.bindings:
+            return _BUILTIN_TYPES[n.id]
         # constants / module-level names
         v = self.repo.ceval(self.module, n, self.env)
         if isinstance(n, ast.Name) and n.id not in self.env and isinstance(v, Obj) and n.id in self.module.bindings:
@@ -767,7 +829,12 @@ class _Interp(object):
                     return self.call_value(m, args, kwargs)
                 if isinstance(base, (bytes, bytearray)) and f.attr == "decode" and len(args) == 2 and isinstance(args[1], str) and args[1] in _registered_error_handlers(self.repo):
                     return self._decode_with_handler(base, args[0], args[1])
-                if isinstance(base, (str, bytes, bytearray, list, tuple, dict, set, frozenset)) and f.attr in _PURE_METHODS.get(type(base), ()):
+                if isinstance(base, type) and base in _BUILTIN_TYPES.values() and hasattr(base, f.attr):
+                    try:
+                        return getattr(base, f.attr)(*args, **kwargs)
+                    except Exception as e:
+                        raise Raised(type(e).__name__)
+                if isinstance(base, _CONTAINERS) and f.attr in _PURE_METHODS.get(type(base), ()):
                     # constant folding of a built-in method on a concrete built-in value
                     if f.attr in ("join", "extend", "update") and args and isinstance(args[0], Obj):
                         args = [self.iterate(args[0])] + list(args[1:])
@@ -775,7 +842,7 @@ class _Interp(object):
                         r = getattr(base, f.attr)(*args, **kwargs)
                     except Exception as e:
                         raise Raised(type(e).__name__)
-                    if isinstance(base, dict) and f.attr in ("items", "keys", "values"):
+                    if isinstance(base, (dict, _co.ChainMap)) and f.attr in ("items", "keys", "values"):
                         return list(r)
                     return r
                 if isinstance(base, Regex) and f.attr in ("split", "findall", "subn"):
@@ -807,6 +874,9 @@ class _Interp(object):
             if dn in ("os.path.splitext", "posixpath.splitext"):
                 import posixpath
                 return posixpath.splitext(*args)
+            if dn == "codecs.register_error" and len(args) == 2 and isinstance(args[0], str):
+                self.repo.__dict__.setdefault("_error_handlers_dynamic", {})[args[0]] = args[1]
+                return None
             if dn == "re.compile":
                 pat = args[0].pattern if isinstance(args[0], Regex) else args[0]
                 flags = args[1] if len(args) > 1 else kwargs.get("flags", 0)
@@ -851,6 +921,10 @@ class _Interp(object):
         if isinstance(f, ast.Name):
             if f.id in self.env:
                 return self.call_value(self.env[f.id], args, kwargs)
+            if f.id == "type" and len(args) == 1 and f.id not in self.module.bindings:
+                if isinstance(args[0], Obj):
+                    return FuncRef(args[0].module, args[0].cls, "%s.%s" % (args[0].module.name, args[0].cls.name))
+                return type(args[0])
             if f.id == "reversed":
                 return list(reversed(list(args[0])))
             if f.id == "range":
@@ -875,7 +949,8 @@ class _Interp(object):
                 raise Raised("StopIteration")
             if f.id in ("map", "filter") and len(args) == 2 and f.id not in self.module.bindings:
                 fn_, seq = args
-                call = (lambda x: self.call_value(fn_, [x], {})) if isinstance(fn_, (FuncRef, Bound, Native)) else fn_
+                call = (lambda x: self.call_value(fn_, [x], {})) if isinstance(fn_, _CALLABLE_VALUES) else fn_
+                seq = self.iterate(seq) if isinstance(seq, Obj) or hasattr(seq, "__next__") else seq
                 if f.id == "map":
                     return [call(x) for x in seq]
                 return [x for x in seq if (call(x) if call is not None else x)]
@@ -1042,7 +1117,22 @@ class _Interp(object):
                     raise Unknown("stdlib call raised %s" % e)
             if ref is not None and ref.module is None and _external(ref.qualname) is not None:
                 return self.call_value(ref, args, kwargs)
+            if f.id in self.module.bindings:
+                # a module-level name holding a callable value: `match_protocol = PROTOCOL_RE.match`, an attrgetter, a partial
+                try:
+                    held = self.expr(ast.Name(id=f.id, ctx=ast.Load()))
+                except Unknown:
+                    held = None
+                if held is not None and (isinstance(held, _CALLABLE_VALUES) or callable(held)):
+                    return self.call_value(held, args, kwargs)
             raise Unknown("call to %s" % f.id)
+        # any other callee expression: the value is computed, then called (`type(node)()`, `table[key](x)`, `f(a)(b)`)
+        try:
+            callee = self.expr(f)
+        except Unknown:
+            callee = None
+        if callee is not None and (isinstance(callee, _CALLABLE_VALUES) or callable(callee) or (isinstance(callee, tuple) and len(callee) == 3 and callee[0] == "class")):
+            return self.call_value(callee, args, kwargs)
         raise Unknown("call shape")
 
 
@@ -1134,6 +1224,15 @@ _Interp.dunder = _dunder
 
 
 def _call_value(self, v, args, kwargs):
+    if isinstance(v, tuple) and len(v) == 3 and v[0] == "class":
+        # obj.__class__ taken as a value and called
+        m = self.repo.mod(v[1])
+        return instantiate(self.repo, m, m.klass(v[2]), args, kwargs, self.depth)
+    if isinstance(v, type) and v in _BUILTIN_TYPES.values():
+        try:
+            return v(*[list(a) if hasattr(a, "__next__") else a for a in args], **kwargs)
+        except Exception as e:
+            raise Raised(type(e).__name__)
     if isinstance(v, FuncRef) and v.module is None and v.node is None:
         ext = _external(v.qualname)
         if ext is None:
